@@ -52,8 +52,8 @@ for _p in ("C01", "C03", "C04", "C09", "C10", "C13", "C14", "C18", "C19", "C23",
     NOT_APPLICABLE.setdefault(_p, _PENDING)
 
 
-def claim(pid, kernels, level_text, note):
-    CLAIMED[pid] = {"kernels": kernels, "level_text": level_text, "note": note}
+def claim(pid, kernels, level_text, note, category="proof"):
+    CLAIMED[pid] = {"kernels": kernels, "level_text": level_text, "note": note, "category": category}
     NOT_APPLICABLE.pop(pid, None)
 
 
@@ -64,3 +64,5 @@ claim("C01", "K01 K02 K04 K06", "Unbounded proof (all 2^64 operands, loop-free c
 claim("C09", "K02", "Unbounded proof that Platform::set establishes the data model the property names for each built-in platform and that the range helpers equal the two's-complement ranges.", _NOTE)
 claim("C10", "K01 K02 K04 K06 K07", "Unbounded proof of safety/termination/prefix lemmas of the literal recognisers (loop contracts, any length) and of arithmetic wrap-around; language equality of recognisers is a bounded check (labelled, not counted as proof).", _NOTE)
 claim("C13", "K01 K02 K04 K06 K07", "Unbounded proof of absence of undefined behaviour and of termination, for the kernel functions only (about 1% of lib/).", _NOTE)
+claim("C27", "K17", "Unbounded proof: whole-set postconditions of the enable-group operations, the value gate equals the property's gate and is monotone in the enabled sets, --enable=<name> adds exactly the named groups and removes none, applyEnabled is monotone when enabling.", _NOTE)
+claim("C18", "K19", "Bounded check (token spelling <= 3 bytes; complete in line and column) that the bytes hashed per token determine spelling, line and column and are prefix-free; labelled bounded, nothing counted as proof.", _NOTE, category="model_checking")
